@@ -275,7 +275,7 @@ func fieldTagToFieldInfo(str string, name string) (*fieldInfo, error) {
 
 // Check that a value fits into a field described by a fieldInfo structure.
 func (i fieldInfo) check(val uint64, fldName string) error {
-	if val >= (1 << (8 * i.count)) {
+	if i.count < 8 && val >= (1<<(8*i.count)) {
 		return structuralError{fldName, fmt.Sprintf("value %d too large for size", val)}
 	}
 	if i.maxlen != 0 {
